@@ -439,7 +439,12 @@ def organize(
             pass
         pass
     log.debug('organize() - setting queue')
-    dawgie.pl.schedule.que = sorted(jobs.values(), key=lambda i: i.get('level'))
+    # a node with nothing pending and nothing executing is not work: leaving it
+    # in the queue blocks downstream analyses and the "queue empty" waiters
+    dawgie.pl.schedule.que = sorted(
+        filter(lambda j: j.get('todo') or j.get('doing'), jobs.values()),
+        key=lambda i: i.get('level'),
+    )
     return
 
 
@@ -474,12 +479,23 @@ def periodics(factories):
 
 
 def purge(node: dawgie.pl.dag.Node, target: str):
+    executing = target in node.get('doing', [])
     if target in node.get('do', []):
         node.get('do').remove(target)
     if target in node.get('doing', []):
         node.get('doing').remove(target)
     if target in node.get('todo', []):
         node.get('todo').remove(target)
+    # withdrawing the last pending target leaves the node with nothing to do:
+    # take it out of the queue as complete() does (a node whose target is still
+    # on a worker leaves the queue when that result is applied)
+    if (
+        not executing
+        and not (node.get('todo') or node.get('doing'))
+        and any(job is node for job in que)
+    ):
+        que.remove(node)
+        node.set('status', State.waiting)
 
     for child in node:
         purge(child, target)
